@@ -1,1 +1,868 @@
-//! Generators for the summary monitors.
+//! Generators shared by the pkg_summary monitors C07, C08, C09: awkward
+//! values, model entries, call histories, entry texts with injected faults,
+//! streams and partitions.  Nothing in here calls the library.
+
+use crate::oracle::summary::{
+    self as os, Cause, Entry, Kind, Line, Val, NVARS, REQUIRED, VARS,
+};
+use crate::rng::Rng;
+
+// ---------------------------------------------------------------------------
+// Values (never contain CR or LF)
+// ---------------------------------------------------------------------------
+
+const PLAIN: [&str; 16] = [
+    "2019-08-12 15:58:02 +0100",
+    "devel pkgtools",
+    "This is a test",
+    "x86_64",
+    "Darwin",
+    "18.7.0",
+    "testpkg-1.0",
+    "pkgtools/testpkg",
+    "20091115",
+    "https://docs.rs/pkgsrc/",
+    "apache-2.0 OR modified-bsd",
+    "dep-pkg2>=2.0",
+    "cfl-pkg1-[0-9]*",
+    "/opt/pkg/lib/libfoo.dylib",
+    "SHA1 a4801e9b26eeb5b8bd1f54bac1c8e89dec67786a",
+    "a",
+];
+const WITH_EQ: [&str; 10] =
+    ["=", "a=b", "==", "k=v=w", "=lead", "trail=", "a = b", "x==y=", "=\u{e9}=", "CFLAGS=-O2 -g"];
+const BLANKS: [&str; 10] =
+    [" ", "  ", " x", "x ", "  x  ", "\tx", "x\t", "\t", " = ", " a b "];
+const LOOKALIKE: [&str; 8] = [
+    "PKGNAME=foo-1.0",
+    "DESCRIPTION=",
+    "SIZE_PKG=12",
+    "BUILD_DATE",
+    "COMMENT=COMMENT=",
+    "FILE_SIZE=abc",
+    "pkgname=x",
+    "NOTAVAR=1",
+];
+/// 2-, 3- and 4-byte UTF-8.
+const MB2: [&str; 6] = ["\u{e9}", "\u{fc}", "\u{df}", "\u{3a9}", "\u{436}", "\u{a0}"];
+const MB3: [&str; 6] = ["\u{20ac}", "\u{65e5}", "\u{672c}", "\u{2603}", "\u{3042}", "\u{ffe6}"];
+const MB4: [&str; 5] = ["\u{1f600}", "\u{1d11e}", "\u{10348}", "\u{1f4a9}", "\u{20000}"];
+/// Characters that other line splitters treat as breaks; `pkg_summary` does not.
+const EXOTIC: [&str; 7] = ["\u{2028}", "\u{2029}", "\u{85}", "\u{0b}", "\u{0c}", "\u{0}", "\u{feff}"];
+const WORDS: [&str; 12] = [
+    "lib", "foo", "bar", "-", "1.0", "nb2", "/", ".", ",", ":", "#", "\"",
+];
+
+#[derive(Clone, Copy, Debug, PartialEq, Eq)]
+pub enum VClass {
+    Plain,
+    Empty,
+    Eq,
+    Blank,
+    Lookalike,
+    Multibyte,
+    Mixed,
+}
+
+impl VClass {
+    pub fn name(self) -> &'static str {
+        match self {
+            VClass::Plain => "plain",
+            VClass::Empty => "empty",
+            VClass::Eq => "eq",
+            VClass::Blank => "blank",
+            VClass::Lookalike => "lookalike",
+            VClass::Multibyte => "multibyte",
+            VClass::Mixed => "mixed",
+        }
+    }
+}
+
+fn pk(r: &mut Rng, xs: &[&'static str]) -> &'static str {
+    xs[r.below(xs.len())]
+}
+
+fn multibyte_char(r: &mut Rng) -> &'static str {
+    match r.below(3) {
+        0 => pk(r, &MB2),
+        1 => pk(r, &MB3),
+        _ => pk(r, &MB4),
+    }
+}
+
+/// Random composition of tokens from every alphabet.
+fn mixed(r: &mut Rng, max_tokens: usize) -> String {
+    let n = r.range(1, max_tokens.max(1));
+    let mut s = String::new();
+    for _ in 0..n {
+        let t: &str = match r.below(12) {
+            0..=3 => pk(r, &WORDS),
+            4 => "=",
+            5 => " ",
+            6 | 7 => multibyte_char(r),
+            8 => pk(r, &EXOTIC),
+            9 => pk(r, &PLAIN),
+            10 => pk(r, &WITH_EQ),
+            _ => pk(r, &BLANKS),
+        };
+        s.push_str(t);
+    }
+    s
+}
+
+pub fn value_of_class(r: &mut Rng, c: VClass, max_tokens: usize) -> String {
+    match c {
+        VClass::Plain => pk(r, &PLAIN).to_string(),
+        VClass::Empty => String::new(),
+        VClass::Eq => pk(r, &WITH_EQ).to_string(),
+        VClass::Blank => pk(r, &BLANKS).to_string(),
+        VClass::Lookalike => pk(r, &LOOKALIKE).to_string(),
+        VClass::Multibyte => {
+            let n = r.range(1, 4);
+            let mut s = String::new();
+            for k in 0..n {
+                if k > 0 && r.chance(1, 2) {
+                    s.push_str(pk(r, &WORDS));
+                }
+                s.push_str(multibyte_char(r));
+            }
+            s
+        }
+        VClass::Mixed => mixed(r, max_tokens),
+    }
+}
+
+pub fn vclass(r: &mut Rng) -> VClass {
+    match r.below(16) {
+        0..=4 => VClass::Plain,
+        5 => VClass::Empty,
+        6 | 7 => VClass::Eq,
+        8 => VClass::Blank,
+        9 => VClass::Lookalike,
+        10..=12 => VClass::Multibyte,
+        _ => VClass::Mixed,
+    }
+}
+
+/// Any text without CR/LF.
+pub fn value(r: &mut Rng) -> String {
+    let c = vclass(r);
+    value_of_class(r, c, 8)
+}
+
+/// Is this one of the values that plain tests do not use?
+pub fn awkward(s: &str) -> bool {
+    s.is_empty()
+        || s.contains('=')
+        || !s.is_ascii()
+        || s.starts_with([' ', '\t'])
+        || s.ends_with([' ', '\t'])
+        || s.bytes().any(|b| b < 0x20 || b == 0x7f)
+}
+
+pub fn awkward_int(i: i64) -> bool {
+    i < 0 || i > (1 << 53)
+}
+
+pub fn awkward_val(v: &Val) -> bool {
+    match v {
+        Val::S(s) => awkward(s),
+        Val::I(i) => awkward_int(*i),
+        Val::A(a) => a.iter().any(|s| awkward(s)),
+    }
+}
+
+pub fn size(r: &mut Rng) -> i64 {
+    match r.below(12) {
+        0 => 0,
+        1 => 1,
+        2 => -1,
+        3 => i64::MAX,
+        4 => i64::MIN,
+        5 => i64::MAX - r.below(1000) as i64,
+        6 => i64::MIN + r.below(1000) as i64,
+        7 => 10i64.pow(r.below(19) as u32),
+        8 => -(10i64.pow(r.below(19) as u32)),
+        9 => r.next() as i64,
+        _ => r.below(100_000_000) as i64,
+    }
+}
+
+/// Line list of length 1-4, members may be empty.
+pub fn list(r: &mut Rng) -> Vec<String> {
+    let n = r.range(1, 4);
+    (0..n).map(|_| value(r)).collect()
+}
+
+pub fn val_for(r: &mut Rng, var: usize) -> Val {
+    match VARS[var].kind {
+        Kind::S => Val::S(value(r)),
+        Kind::I => Val::I(size(r)),
+        Kind::A => Val::A(list(r)),
+    }
+}
+
+// ---------------------------------------------------------------------------
+// Model entries
+// ---------------------------------------------------------------------------
+
+/// A complete entry: all eleven required variables, optional ones with
+/// probability `opt_num/opt_den` each (`all_optional` forces all 23).
+pub fn model(r: &mut Rng, all_optional: bool, opt_num: usize, opt_den: usize) -> Entry {
+    let mut e = Entry::new();
+    for var in 0..NVARS {
+        let take = VARS[var].required || all_optional;
+        // Draw both always so the stream consumption does not depend on the flag.
+        let coin = r.chance(opt_num, opt_den);
+        let val = val_for(r, var);
+        if take || coin {
+            e.set(var, val);
+        }
+    }
+    e
+}
+
+/// A compact complete entry for stream workloads: short values, so that a
+/// stream of a few entries stays within a few hundred bytes, with
+/// multi-byte characters sprinkled in.  `mb_last` makes the last value
+/// before the separator end in a multi-byte character (through SUPERSEDES,
+/// the only variable printed after the integer SIZE_PKG).
+pub fn compact_model(
+    r: &mut Rng,
+    optional_num: usize,
+    optional_den: usize,
+    mb_last: bool,
+    tiny: bool,
+) -> Entry {
+    // `tiny`: every value is at most 8 bytes long
+    let short = |r: &mut Rng| -> String {
+        match r.below(10) {
+            0 => String::new(),
+            1 => "=".into(),
+            2 => " ".into(),
+            3 | 4 => multibyte_char(r).to_string(),
+            5 => format!("{}{}", pk(r, &WORDS), multibyte_char(r)),
+            6 => format!("{}{}", multibyte_char(r), pk(r, &WORDS)),
+            7 if !tiny => pk(r, &PLAIN).to_string(),
+            _ => pk(r, &WORDS).to_string(),
+        }
+    };
+    let mut e = Entry::new();
+    for var in 0..NVARS {
+        let coin = r.chance(optional_num, optional_den);
+        let val = match VARS[var].kind {
+            Kind::S => Val::S(short(r)),
+            Kind::I => Val::I(size(r)),
+            Kind::A => {
+                let n = r.range(1, 2);
+                Val::A((0..n).map(|_| short(r)).collect())
+            }
+        };
+        if VARS[var].required || coin {
+            e.set(var, val);
+        }
+    }
+    let tail = format!("{}{}", pk(r, &WORDS), multibyte_char(r));
+    if mb_last {
+        match &mut e.vals[os::SUPERSEDES] {
+            Some(Val::A(a)) => a.push(tail),
+            slot => *slot = Some(Val::A(vec![tail])),
+        }
+    }
+    e
+}
+
+// ---------------------------------------------------------------------------
+// Call histories realising a model (C07)
+// ---------------------------------------------------------------------------
+
+#[derive(Clone, Debug, PartialEq, Eq)]
+pub enum Op {
+    Set(usize, Val),
+    Push(usize, String),
+}
+
+impl Op {
+    pub fn var(&self) -> usize {
+        match self {
+            Op::Set(v, _) | Op::Push(v, _) => *v,
+        }
+    }
+    pub fn show(&self) -> String {
+        match self {
+            Op::Set(v, Val::S(s)) => format!("set {}={:?}", VARS[*v].name, s),
+            Op::Set(v, Val::I(i)) => format!("set {}={}", VARS[*v].name, i),
+            Op::Set(v, Val::A(a)) => format!("set {}={:?}", VARS[*v].name, a),
+            Op::Push(v, s) => format!("push {}+={:?}", VARS[*v].name, s),
+        }
+    }
+}
+
+/// The calls for one variable, ending in its model value.
+fn ops_for(r: &mut Rng, var: usize, target: &Val) -> Vec<Op> {
+    let mut ops = vec![];
+    // earlier values that must be overwritten
+    let junk = match r.below(6) {
+        0 | 1 | 2 => 0,
+        3 | 4 => 1,
+        _ => 2,
+    };
+    for _ in 0..junk {
+        match VARS[var].kind {
+            Kind::A if r.chance(1, 2) => {
+                // junk built by pushing: must be wiped by a later set
+                for _ in 0..r.range(1, 2) {
+                    ops.push(Op::Push(var, value(r)));
+                }
+            }
+            _ => {
+                // sometimes the junk already equals the target (repetition)
+                if r.chance(1, 4) {
+                    ops.push(Op::Set(var, target.clone()));
+                } else {
+                    ops.push(Op::Set(var, val_for(r, var)));
+                }
+            }
+        }
+    }
+    match target {
+        Val::S(_) | Val::I(_) => ops.push(Op::Set(var, target.clone())),
+        Val::A(a) => {
+            // The first k members arrive through one set call, the rest
+            // through pushes.  k = 0 (pushes only) is possible only while the
+            // variable has never been touched; otherwise the set wipes the junk.
+            let virgin = ops.is_empty();
+            let lo = if virgin { 0 } else { 1 };
+            let k = match r.below(4) {
+                0 => a.len(),
+                1 => lo,
+                _ => r.range(lo, a.len()),
+            };
+            if k > 0 {
+                ops.push(Op::Set(var, Val::A(a[..k].to_vec())));
+            }
+            for s in &a[k..] {
+                ops.push(Op::Push(var, s.clone()));
+            }
+        }
+    }
+    ops
+}
+
+/// A random call history whose final values are exactly `m`: per-variable
+/// call sequences (with overwritten junk and repetitions) merged in a random
+/// interleaving that keeps each variable's own order.
+pub fn history(r: &mut Rng, m: &Entry) -> Vec<Op> {
+    let mut queues: Vec<std::collections::VecDeque<Op>> = vec![];
+    for var in 0..NVARS {
+        if let Some(t) = m.get(var) {
+            queues.push(ops_for(r, var, t).into());
+        }
+    }
+    let mut out = vec![];
+    // A third of the histories go through the variables in reverse or
+    // shuffled block order instead of a fine interleaving.
+    match r.below(3) {
+        0 => {
+            queues.reverse();
+            for q in queues {
+                out.extend(q);
+            }
+        }
+        _ => {
+            while !queues.is_empty() {
+                let k = r.below(queues.len());
+                if let Some(op) = queues[k].pop_front() {
+                    out.push(op);
+                }
+                if queues[k].is_empty() {
+                    queues.swap_remove(k);
+                }
+            }
+        }
+    }
+    out
+}
+
+/// Apply a history to the model (the reference semantics of set/push).
+pub fn replay_history(ops: &[Op]) -> Entry {
+    let mut e = Entry::new();
+    for op in ops {
+        match op {
+            Op::Set(v, val) => e.set(*v, val.clone()),
+            Op::Push(v, s) => e.push(*v, s),
+        }
+    }
+    e
+}
+
+// ---------------------------------------------------------------------------
+// Entry texts (C08): any subset / order / repetition, injected faults
+// ---------------------------------------------------------------------------
+
+pub fn line_for(r: &mut Rng, var: usize) -> Line {
+    let text = match VARS[var].kind {
+        Kind::I => size(r).to_string(),
+        _ => value(r),
+    };
+    Line { var, text }
+}
+
+/// Well-formed lines in random order with repetitions.  With `complete` all
+/// eleven required variables occur; otherwise 1-3 of them are left out
+/// (returned as the second component).
+pub fn wellformed(r: &mut Rng, complete: bool) -> (Vec<Line>, Vec<usize>) {
+    let mut left_out = vec![];
+    if !complete {
+        let n = r.range(1, 3);
+        let mut req = REQUIRED.to_vec();
+        r.shuffle(&mut req);
+        left_out = req[..n].to_vec();
+        left_out.sort();
+    }
+    let mut lines = vec![];
+    for var in 0..NVARS {
+        if left_out.contains(&var) {
+            continue;
+        }
+        let present = VARS[var].required || r.chance(1, 2);
+        if !present {
+            continue;
+        }
+        let reps = match r.below(8) {
+            0..=4 => 1,
+            5 | 6 => 2,
+            _ => 3,
+        };
+        for _ in 0..reps {
+            lines.push(line_for(r, var));
+        }
+    }
+    match r.below(4) {
+        0 => {}                      // canonical-ish order, repetitions adjacent
+        1 => lines.reverse(),
+        _ => r.shuffle(&mut lines),
+    }
+    (lines, left_out)
+}
+
+pub fn render(lines: &[String], trailing_newline: bool) -> String {
+    let mut t = lines.join("\n");
+    if trailing_newline && !lines.is_empty() {
+        t.push('\n');
+    }
+    t
+}
+
+pub const NO_EQ: [&str; 12] = [
+    "BUILD_DATE",
+    "garbage",
+    "PKGNAME testpkg-1.0",
+    " ",
+    "\u{e9}",
+    "# comment",
+    "PKGNAME:foo",
+    "SIZE_PKG 12",
+    "\t",
+    "DESCRIPTION",
+    "x",
+    "\u{1f600}\u{20ac}",
+];
+
+/// Names that are not one of the 23: unknown, misspelt, case-changed,
+/// blank-padded.  None contains `=`, none is empty.
+pub const BAD_NAMES: [(&str, &str); 20] = [
+    ("FOO", "unknown"),
+    ("MAINTAINER", "unknown"),
+    ("PKG", "unknown"),
+    ("X", "unknown"),
+    ("BILD_DATE", "misspelt"),
+    ("PKG_NAME", "misspelt"),
+    ("PKGOPTIONS", "misspelt"),
+    ("PKGNAMES", "misspelt"),
+    ("PKGNAM", "misspelt"),
+    ("SIZEPKG", "misspelt"),
+    ("FILE-SIZE", "misspelt"),
+    ("DESCRIPTION\u{e9}", "misspelt"),
+    ("pkgname", "case"),
+    ("Pkgname", "case"),
+    ("build_date", "case"),
+    ("Size_Pkg", "case"),
+    (" PKGNAME", "padded"),
+    ("PKGNAME ", "padded"),
+    ("\tCOMMENT", "padded"),
+    ("SIZE_PKG ", "padded"),
+];
+
+/// Values that are not integers under any reasonable reading.
+pub const BAD_INTS: [&str; 12] = [
+    "",
+    "12x",
+    "1.5",
+    " 5",
+    "5 ",
+    "9223372036854775808",
+    "-9223372036854775809",
+    "99999999999999999999999999",
+    "abc",
+    "0x10",
+    "1e3",
+    "--5",
+];
+
+#[derive(Clone, Debug, PartialEq, Eq)]
+pub enum Fault {
+    /// insert a line without `=`
+    NoEq(String),
+    /// insert `NAME=value` with a name outside the table (second = flavour)
+    BadName(String, &'static str),
+    /// insert `=value` (empty name): malformed line or unknown variable
+    EmptyName(String),
+    /// insert an extra FILE_SIZE/SIZE_PKG line with a non-integer value
+    BadIntInsert(usize, String),
+    /// replace the value of every existing line of FILE_SIZE/SIZE_PKG
+    BadIntReplace(usize, String),
+    /// remove every line of a required variable
+    Remove(usize),
+}
+
+impl Fault {
+    pub fn class(&self) -> &'static str {
+        match self {
+            Fault::NoEq(_) => "line",
+            Fault::BadName(..) => "variable",
+            Fault::EmptyName(_) => "emptyname",
+            Fault::BadIntInsert(..) | Fault::BadIntReplace(..) => "int",
+            Fault::Remove(_) => "missing",
+        }
+    }
+    pub fn show(&self) -> String {
+        match self {
+            Fault::NoEq(s) => format!("line without '=' {s:?}"),
+            Fault::BadName(s, f) => format!("{f} name line {s:?}"),
+            Fault::EmptyName(s) => format!("empty name line {s:?}"),
+            Fault::BadIntInsert(v, s) => format!("extra {}={s:?}", VARS[*v].name),
+            Fault::BadIntReplace(v, s) => format!("{} value replaced by {s:?}", VARS[*v].name),
+            Fault::Remove(v) => format!("{} removed", VARS[*v].name),
+        }
+    }
+}
+
+#[derive(Clone, Copy, Debug, PartialEq, Eq)]
+pub enum Pos {
+    First,
+    Middle,
+    Last,
+}
+
+impl Pos {
+    pub fn name(self) -> &'static str {
+        match self {
+            Pos::First => "first",
+            Pos::Middle => "middle",
+            Pos::Last => "last",
+        }
+    }
+    pub const ALL: [Pos; 3] = [Pos::First, Pos::Middle, Pos::Last];
+}
+
+pub fn bad_name_line(r: &mut Rng) -> Fault {
+    let (n, flavour) = *r.pick(&BAD_NAMES);
+    Fault::BadName(format!("{}={}", n, value(r)), flavour)
+}
+
+pub fn fault_of_class(r: &mut Rng, class: &str) -> Fault {
+    match class {
+        "line" => Fault::NoEq(pk(r, &NO_EQ).to_string()),
+        "variable" => bad_name_line(r),
+        "emptyname" => Fault::EmptyName(format!("={}", value(r))),
+        "int" => {
+            let var = if r.chance(1, 2) { os::FILE_SIZE } else { os::SIZE_PKG };
+            let bad = pk(r, &BAD_INTS).to_string();
+            if r.chance(1, 2) {
+                Fault::BadIntReplace(var, bad)
+            } else {
+                Fault::BadIntInsert(var, bad)
+            }
+        }
+        _ => Fault::Remove(*r.pick(&REQUIRED)),
+    }
+}
+
+/// Result of injecting faults into well-formed lines.
+pub struct Faulty {
+    pub lines: Vec<String>,
+    /// Causes of rejection present, by construction.
+    pub causes: Vec<Cause>,
+}
+
+/// Inject one fault.  Inserted lines go to `pos`; the well-formed lines stay
+/// otherwise untouched, so exactly the returned causes are present.
+pub fn inject(r: &mut Rng, base: &[Line], fault: &Fault, pos: Pos) -> Faulty {
+    let mut lines: Vec<String> = base.iter().map(|l| l.render()).collect();
+    let at = |r: &mut Rng, n: usize| match pos {
+        Pos::First => 0,
+        Pos::Last => n,
+        Pos::Middle => {
+            if n >= 2 {
+                r.range(1, n - 1)
+            } else {
+                n / 2
+            }
+        }
+    };
+    let p = at(r, lines.len());
+    let mut causes = vec![];
+    match fault {
+        Fault::NoEq(s) => {
+            lines.insert(p, s.clone());
+            causes.push(Cause::Line);
+        }
+        Fault::BadName(s, _) => {
+            lines.insert(p, s.clone());
+            causes.push(Cause::Variable);
+        }
+        Fault::EmptyName(s) => {
+            lines.insert(p, s.clone());
+            causes.push(Cause::Line);
+            causes.push(Cause::Variable);
+        }
+        Fault::BadIntInsert(var, s) => {
+            lines.insert(p, format!("{}={}", VARS[*var].name, s));
+            causes.push(Cause::Int);
+        }
+        Fault::BadIntReplace(var, s) => {
+            let mut any = false;
+            for (k, l) in base.iter().enumerate() {
+                if l.var == *var {
+                    lines[k] = format!("{}={}", VARS[*var].name, s);
+                    any = true;
+                }
+            }
+            if !any {
+                lines.insert(p, format!("{}={}", VARS[*var].name, s));
+            }
+            causes.push(Cause::Int);
+            if VARS[*var].required {
+                // a reader that drops the bad line could also call it missing
+                causes.push(Cause::Missing(*var));
+            }
+        }
+        Fault::Remove(var) => {
+            let keep: Vec<String> = base
+                .iter()
+                .zip(lines.iter())
+                .filter(|(l, _)| l.var != *var)
+                .map(|(_, s)| s.clone())
+                .collect();
+            lines = keep;
+            causes.push(Cause::Missing(*var));
+        }
+    }
+    Faulty { lines, causes }
+}
+
+// ---------------------------------------------------------------------------
+// Streams and partitions (C09)
+// ---------------------------------------------------------------------------
+
+pub struct Stream {
+    pub bytes: Vec<u8>,
+    /// Reference entries (for a malformed stream: only the well-formed ones
+    /// before the bad entry are ever compared).
+    pub entries: Vec<Entry>,
+    /// Canonical text of each entry (without the separating blank line).
+    pub texts: Vec<String>,
+    /// Byte offset where each entry starts; `starts[k+1]` is one past the
+    /// newline of entry k's blank line.
+    pub starts: Vec<usize>,
+    /// Index and fault of the malformed entry, if any.
+    pub bad: Option<(usize, Fault)>,
+}
+
+impl Stream {
+    pub fn from_texts(entries: Vec<Entry>, texts: Vec<String>, bad: Option<(usize, Fault)>) -> Stream {
+        let mut bytes = vec![];
+        let mut starts = vec![0];
+        for t in &texts {
+            bytes.extend_from_slice(t.as_bytes());
+            bytes.push(b'\n');
+            starts.push(bytes.len());
+        }
+        Stream { bytes, entries, texts, starts, bad }
+    }
+    pub fn len(&self) -> usize {
+        self.bytes.len()
+    }
+}
+
+/// A well-formed stream of `n` compact entries.
+pub fn stream(r: &mut Rng, n: usize, opt_num: usize, opt_den: usize, tiny: bool) -> Stream {
+    let mut entries = vec![];
+    for k in 0..n {
+        // every other entry ends in a multi-byte character right before the separator
+        let mb_last = k % 2 == 0 || r.chance(1, 3);
+        entries.push(compact_model(r, opt_num, opt_den, mb_last, tiny));
+    }
+    let texts = entries.iter().map(|e| e.print()).collect();
+    Stream::from_texts(entries, texts, None)
+}
+
+/// A larger stream built from the full value generator (<= ~8 KiB).
+pub fn big_stream(r: &mut Rng, n: usize) -> Stream {
+    let mut entries: Vec<Entry> = vec![];
+    let mut total = 0;
+    for k in 0..n {
+        let mut e = model(r, k == 0, 1, 2);
+        if r.chance(1, 2) {
+            let tail = format!("{}{}", pk(r, &WORDS), multibyte_char(r));
+            e.push(os::SUPERSEDES, &tail);
+        }
+        let len = e.print().len() + 1;
+        // keep the draw sequence independent of sizes; just stop adding
+        if total + len <= 8192 || entries.is_empty() {
+            total += len;
+            entries.push(e);
+        }
+    }
+    let texts = entries.iter().map(|e| e.print()).collect();
+    Stream::from_texts(entries, texts, None)
+}
+
+/// The canonical lines of an entry as generator lines.
+pub fn canonical_lines(e: &Entry) -> Vec<Line> {
+    let mut out = vec![];
+    for var in 0..NVARS {
+        if let Some(v) = e.get(var) {
+            for t in v.texts() {
+                out.push(Line { var, text: t });
+            }
+        }
+    }
+    out
+}
+
+/// A stream of `n` entries whose entry `j` carries `fault`.
+pub fn bad_stream(r: &mut Rng, n: usize, j: usize, fault: Fault, pos: Pos) -> Stream {
+    let mut entries = vec![];
+    let mut texts = vec![];
+    for k in 0..n {
+        let mb_last = r.chance(1, 2);
+        let e = compact_model(r, 1, 3, mb_last, false);
+        if k == j {
+            let f = inject(r, &canonical_lines(&e), &fault, pos);
+            texts.push(render(&f.lines, true));
+        } else {
+            texts.push(e.print());
+        }
+        entries.push(e);
+    }
+    Stream::from_texts(entries, texts, Some((j, fault)))
+}
+
+#[derive(Clone, Copy, Debug, PartialEq, Eq)]
+pub enum CutClass {
+    /// between the bytes of one multi-byte character
+    InChar,
+    /// between the two newlines of a separator
+    InSeparator,
+    Other,
+}
+
+pub fn classify_cut(bytes: &[u8], c: usize) -> CutClass {
+    if c == 0 || c >= bytes.len() {
+        return CutClass::Other;
+    }
+    if bytes[c] & 0xC0 == 0x80 {
+        CutClass::InChar
+    } else if bytes[c - 1] == b'\n' && bytes[c] == b'\n' {
+        CutClass::InSeparator
+    } else {
+        CutClass::Other
+    }
+}
+
+/// Turn sorted chunk boundaries (duplicates = zero-length chunks, values in
+/// 0..=len) into chunk ranges covering 0..len.
+pub fn chunks_of(len: usize, cuts: &[usize]) -> Vec<(usize, usize)> {
+    let mut out = vec![];
+    let mut prev = 0;
+    for &c in cuts {
+        let c = c.min(len);
+        out.push((prev, c));
+        prev = c;
+    }
+    out.push((prev, len));
+    out
+}
+
+pub fn fixed_cuts(len: usize, size: usize) -> Vec<usize> {
+    let mut v = vec![];
+    let mut c = size;
+    while c < len {
+        v.push(c);
+        c += size;
+    }
+    v
+}
+
+/// Seeded random partition: either uniformly placed cuts or chunk lengths
+/// from a skewed distribution (many tiny chunks, a few large ones).
+pub fn random_cuts(r: &mut Rng, len: usize) -> Vec<usize> {
+    let mut v = vec![];
+    if len < 2 {
+        return v;
+    }
+    if r.chance(1, 2) {
+        let n = r.range(1, 40.min(len - 1));
+        for _ in 0..n {
+            v.push(r.range(1, len - 1));
+        }
+        v.sort();
+        v.dedup();
+    } else {
+        let mut c = 0;
+        loop {
+            let step = match r.below(6) {
+                0 | 1 => 1,
+                2 => r.range(1, 4),
+                3 => r.range(1, 16),
+                4 => r.range(1, 128),
+                _ => r.range(1, 1024),
+            };
+            c += step;
+            if c >= len {
+                break;
+            }
+            v.push(c);
+        }
+    }
+    v
+}
+
+/// Interleave zero-length chunks: duplicate some boundaries and add empty
+/// writes at the very start and the very end.
+pub fn with_empty_chunks(r: &mut Rng, len: usize, cuts: &[usize]) -> Vec<usize> {
+    let mut v = vec![];
+    if r.chance(2, 3) {
+        v.push(0);
+    }
+    for &c in cuts {
+        v.push(c);
+        let extra = match r.below(4) {
+            0 => 0,
+            1 | 2 => 1,
+            _ => 2,
+        };
+        for _ in 0..extra {
+            v.push(c);
+        }
+    }
+    if r.chance(2, 3) {
+        v.push(len);
+    }
+    if v.is_empty() {
+        v.push(0);
+    }
+    v
+}
